@@ -1,0 +1,75 @@
+#![allow(dead_code, missing_docs)]
+//! Single-pass views for the pass models (cargo feature `verif_hooks`): the precedence and the
+//! conditional-compilation pass run on a parsed grammar *without* prevalidation, so that a model
+//! of those passes can be compared on inputs the validator would have rejected.
+use super::{cond_comp, precedence, resolve};
+use crate::parser;
+use crate::verif_hooks::{hex, install, quiet_session, sexp};
+
+/// parse → cond_comp → resolve → precedence (no prevalidate). May panic; callers catch.
+pub fn expand_unvalidated(text: &str, features: Option<&[&str]>) -> String {
+    let (session, _tls) = install(quiet_session(features), text);
+    let g = match parser::parse_grammar(text) {
+        Ok(g) => g,
+        Err(_) => return "error parse".to_string(),
+    };
+    let g = match cond_comp::remove_disabled_decls(&session, g) {
+        Ok(g) => g,
+        Err(e) => return format!("error cond_comp {}", hex(&e.message)),
+    };
+    let g = match resolve::resolve(g) {
+        Ok(g) => g,
+        Err(e) => return format!("error resolve {}", hex(&e.message)),
+    };
+    match precedence::expand_precedence(g) {
+        Ok(g) => format!("ok {}", sexp::pt_grammar(&g)),
+        Err(e) => format!("error precedence {}", hex(&e.message)),
+    }
+}
+
+/// parse → resolve (no prevalidate, no cond_comp): the input `expand_unvalidated` expands
+/// when no alternative is disabled.
+pub fn resolve_unvalidated(text: &str, features: Option<&[&str]>) -> String {
+    let (session, _tls) = install(quiet_session(features), text);
+    let g = match parser::parse_grammar(text) {
+        Ok(g) => g,
+        Err(_) => return "error parse".to_string(),
+    };
+    let g = match cond_comp::remove_disabled_decls(&session, g) {
+        Ok(g) => g,
+        Err(e) => return format!("error cond_comp {}", hex(&e.message)),
+    };
+    match resolve::resolve(g) {
+        Ok(g) => format!("ok {}", sexp::pt_grammar(&g)),
+        Err(e) => format!("error resolve {}", hex(&e.message)),
+    }
+}
+
+/// parse → cond_comp (no prevalidate).
+pub fn cond_comp_unvalidated(text: &str, features: Option<&[&str]>) -> String {
+    let (session, _tls) = install(quiet_session(features), text);
+    let g = match parser::parse_grammar(text) {
+        Ok(g) => g,
+        Err(_) => return "error parse".to_string(),
+    };
+    match cond_comp::remove_disabled_decls(&session, g) {
+        Ok(g) => format!("ok {}", sexp::pt_grammar(&g)),
+        Err(e) => format!("error cond_comp {}", hex(&e.message)),
+    }
+}
+
+/// `FileText::line_col` of two positions: `l1 c1 l2 c2` (for the arithmetic model of file_text.rs).
+pub fn file_text_line_col(text: &str, lo: usize, hi: usize) -> String {
+    let ft = crate::file_text::FileText::new(std::path::PathBuf::from("verif.lalrpop"), text.to_string());
+    let (l1, c1) = ft.line_col(lo);
+    let (l2, c2) = ft.line_col(hi);
+    format!("{l1} {c1} {l2} {c2}")
+}
+
+/// `FileText::highlight` of the span `lo..hi`: hex of what it writes. May panic; callers catch.
+pub fn file_text_highlight(text: &str, lo: usize, hi: usize) -> String {
+    let ft = crate::file_text::FileText::new(std::path::PathBuf::from("verif.lalrpop"), text.to_string());
+    let mut out: Vec<u8> = Vec::new();
+    ft.highlight(crate::grammar::parse_tree::Span(lo, hi), &mut out).unwrap();
+    hex(&String::from_utf8_lossy(&out))
+}
